@@ -32,6 +32,7 @@ type pend struct {
 	kind  string // "genesis" | "sync" | "import"
 	nodes []*Node
 	imp   *impCase
+	rep   *c20case
 	desc  string
 }
 
@@ -48,6 +49,7 @@ type world struct {
 	onImp func(tr *e1.TxTrace, pre, post sview, p *pend)
 	nTx   int
 	nJudged int // transactions judged by the property oracle
+	afterRestart func()
 }
 
 // rootHeight maps a plan selector to a trust-root height around the fork boundaries of the
